@@ -31,6 +31,7 @@ class Recorder:
     """Collects per-run statistics across the examples of one Hypothesis run."""
 
     def __init__(self) -> None:
+        self.histories: list[list] = []  # op lists of all examples, in order (multi-session replay)
         self.examples = 0
         self.ops_total = 0
         self.shapes: set[str] = set()
@@ -47,6 +48,7 @@ class Recorder:
         self.ops_total += len(ops)
         text = json.dumps([ops, outcomes or []], default=str)
         self.all_ops.append(text)
+        self.histories.append([list(op) for op in ops])
         self.example_digests.append(hashlib.sha256(text.encode()).hexdigest()[:10])
         if len(ops) >= 2:
             self.shapes.add(hashlib.sha256(text.encode()).hexdigest())
@@ -128,3 +130,24 @@ def run_machine(machine_factory, hyp_seed: int, max_examples: int, step_count: i
     except HistoryViolation as err:
         return err
     return None
+
+
+def replay_form(case: dict, ops: list, signature: dict, rec: "Recorder", single) -> dict:
+    """What to put into the replay file for a failing example.  The examples of one case run one
+    after the other in one process: module-level state of the library survives from one example
+    into the next, so the failing history alone need not reproduce the failure.  ``single(case,
+    ops)`` re-runs that history alone in a pristine process and returns the signature it finds (or
+    None); if that is not the same violation, the replay consists of *all* sessions up to the
+    failing one, run in order in one process."""
+    try:
+        found = single(case, ops)
+    except Exception:  # noqa: BLE001
+        found = None
+    if found == signature:
+        return dict(history=ops)
+    return dict(sessions=[list(h) for h in rec.histories])
+
+
+def shrink_sessions(sessions: list) -> list:
+    """Candidates with one of the earlier sessions dropped (the last one fails)."""
+    return [sessions[:i] + sessions[i + 1 :] for i in range(len(sessions) - 1)]
